@@ -153,6 +153,30 @@ def run(tier, replay):
             cdir = os.path.join(ccomp, f)
             srcs = {g: open(os.path.join(cdir, g)).read() for g in sorted(os.listdir(cdir)) if g.endswith(".rs")} if os.path.isdir(cdir) else {}
             records.append(program_record(f"{label}:{n}", mod_text, comp_text, srcs))
+    # incremental component builds: the libraries left by a sequence of edits and rebuilds in one output
+    # directory must still match the module of the final version at every library boundary
+    import buildlib
+    for seq in (["v1", "v3"], ["v3", "v1"], ["v1", "v2", "v1"], ["v2", "v3", "v4"]):
+        w = vlib.workdir("c19-incr-" + "-".join(seq))
+        src = os.path.join(w, "in")
+        os.makedirs(src)
+        cout, ccomp = os.path.join(w, "out"), os.path.join(w, "comp")
+        for ver in seq:
+            with open(os.path.join(src, buildlib.THEORY + ".eql"), "w") as f:
+                f.write(buildlib.VERSIONS[ver])
+            r1 = vlib.run([os.path.join(vlib.BIN, "eqlogc"), src, cout, "--build-type", "component", "--component-out-dir", ccomp,
+                           "--rustc-path", os.path.join(vlib.VERIF, "tools", "fake_rustc.sh"), "--runtime-rlib-path", "/nonexistent.rlib"], timeout=900)
+            if r1.returncode != 0:
+                raise vlib.ToolError(f"incremental component build {seq} failed at {ver}: {r1.stderr[-800:]}")
+        mout = os.path.join(w, "mout")
+        r2 = vlib.run([os.path.join(vlib.BIN, "eqlogc"), src, mout], timeout=900)
+        if r2.returncode != 0:
+            raise vlib.ToolError(f"module build of {seq[-1]} failed: {r2.stderr[-800:]}")
+        n = buildlib.THEORY
+        cdir = os.path.join(ccomp, n + ".eql")
+        srcs = {g: open(os.path.join(cdir, g)).read() for g in sorted(os.listdir(cdir)) if g.endswith(".rs")}
+        records.append(program_record("incremental(" + "->".join(seq) + "):" + n, open(os.path.join(mout, n + ".eql.rs")).read(),
+                                      open(os.path.join(cout, n + ".eql.rs")).read(), srcs))
     d = vlib.workdir("c19")
     link = os.path.join(d, "link.json")
     json.dump(records, open(link, "w"))
